@@ -210,6 +210,18 @@ fn run_suite<S: ShortGroupSignatureScheme + 'static>(em: &mut Emitter, base: &mu
                 judge(em, suite, "withhold", &scn, &p, &l);
             }
         }
+        // withhold several / all requested claims at once
+        if d.len() >= 2 {
+            for keep in [0usize, 1] {
+                let less: BTreeSet<String> = d.iter().take(keep).cloned().collect();
+                let schema_less = with_disclosed(&scn.schema, &sid, &less);
+                let mut reported = Reported::new();
+                reported.insert(sid.clone(), honest_map(&less));
+                if let Out::Ok(p) = steered_create(&scn.credentials, &schema_less, &scn.schema, &scn.nonce, Some(reported)) {
+                    judge(em, suite, if keep == 0 { "withhold-all" } else { "withhold-all-but-one" }, &scn, &p, "");
+                }
+            }
+        }
         // report a claim that was not requested
         for (i, l) in LABELS.iter().enumerate().take(n_claims) {
             if requested.contains(*l) || (i == 0 && mix.revocation) {
